@@ -16,4 +16,6 @@ for p in "$@"; do
   ( cd "$DIR" && PYTHONPATH="$W" TFL_REPO="$W" VERIF_TIER="${VERIF_TIER:-quick}" ./check "$p" --tier "${VERIF_TIER:-quick}" 2>/dev/null | grep -v "^KNOWN-FINDING" | tail -3 )
   mv "/tmp/mut/ev_$$_$p.json" "$DIR/evidence/$p.json" 2>/dev/null
 done
+# the C11 / C16 checks regenerate their tables from the tree under test: restore the clean-tree tables
+git -C "$DIR" checkout -- lean/TflModel/Generated 2>/dev/null
 git -C /repo worktree remove --force "$W"
